@@ -9,7 +9,7 @@ from concurrent.futures import ThreadPoolExecutor
 
 from lib import gN, gbool, bspec_in, bspec_obs, lcg_bytes, hexs
 
-HEADER = "From CJ Require Import Common.Base C15.Model C15.ModelName C15.ModelObf C15.Run.\n"
+HEADER = "From CJ Require Import Common.Base C15.Model C15.ModelName C15.ModelObf C15.ModelAny C15.Run.\n"
 DNSREG = "pkg/registrars/dns-registrar/"
 PKGS = {
     "msgformat": (".", DNSREG + "msgformat", "c15/msgformat_driver_test.go", "TestVerifC15Msgformat"),
@@ -275,6 +275,38 @@ def gen_obf(ctx):
     return out
 
 
+KINDS = {"generic": (0, "GenericTransportParams", 1), "prefix": (1, "PrefixTransportParams", 3),
+         "dtls": (2, "DTLSTransportParams", 2), "c2s": (3, "ClientToStation", 2)}
+
+
+def any_url(kind, mode):
+    full = "type.googleapis.com/proto." + KINDS[kind][1]
+    return {"keep": full, "empty": "", "tapdance": full.replace("/proto.", "/tapdance."),
+            "other": "type.googleapis.com/proto.NoSuchMessage"}[mode]
+
+
+def gen_any(ctx):
+    rng, quick = ctx.rng, ctx.tier == "quick"
+    out = []
+
+    def add(kind, dst, mode, fields, nilsrc=False):
+        js = {"op": "anypb", "kind": kind, "dstkind": dst, "url": mode, "fields": fields, "nilsrc": nilsrc}
+        out.append(Case("anypb", "transports", js, (kind, dst, mode, tuple(fields), nilsrc)))
+    for kind, (_, _, nf) in KINDS.items():
+        for mode in ("keep", "empty", "tapdance", "other"):
+            combos = [[-1] * nf, [1] * nf, [0] * nf] + [[rng.choice([-1, 0, 1, rng.randrange(2, 9)]) if i else rng.choice([-1, 0, 1])
+                                                         for i in range(nf)] for _ in range(2 if quick else 12)]
+            if kind in ("generic", "dtls"):
+                combos = [[min(x, 1) for x in f] for f in combos]
+            for f in combos:
+                add(kind, kind, mode, f)
+            for dst in KINDS:
+                if dst != kind:
+                    add(kind, dst, mode, combos[1])
+        add(kind, kind, "keep", [-1] * nf, nilsrc=True)
+    return out
+
+
 # ------------------------------------------------------------------ running Go
 def run_go(ctx, cases):
     """run every case's Go observation (one `go test` per package, packages in parallel); fills c.res"""
@@ -420,7 +452,29 @@ def post_reveal(ctx, c):
     return "CReveal %s %s %s %s" % (gN(VARIANTS[v]), hexs(d), gbool(r["ok"]), hexs(bytes.fromhex(r["out"])))
 
 
-TERMS = {"obf": post_obf, "reveal": post_reveal, "fmt": post_fmt, "name_rt": post_name_rt, "read_name": post_read_name, "trim": post_trim,
+def post_any(ctx, c):
+    (kind, dst, mode, fields, nilsrc), r = c.aux, c.res
+    case = {"fam": "anypb", "kind": kind, "dstkind": dst, "url": mode, "fields": list(fields), "nilsrc": nilsrc}
+    if r.get("panic"):
+        ctx.fail("anypb/panic", "UnmarshalAnypbTo panicked: %s" % r["panic"], case)
+        return None
+    if not r["ok"]:
+        ctx.broken("driver", "anypb driver could not pack the case: %s" % r["err"], case)
+        return None
+    ctx.count(("anypb",) + c.aux, kind="anypb/%s/%s" % ("nil" if nilsrc else mode if kind == dst else "cross-" + mode, "ok" if r["ok2"] else "err"))
+    fout = r.get("fields") or []
+    if not nilsrc and kind == dst and mode in ("keep", "empty", "tapdance"):
+        if not (r["ok2"] and list(fout) == list(fields)):
+            ctx.fail("anypb/roundtrip/" + mode, "UnmarshalAnypbTo(pack(m)) != m for %s with type URL mode %s (err=%r, fields %s -> %s)"
+                     % (kind, mode, r["err2"], list(fields), fout), case)
+    if not nilsrc and r["ok2"] and (mode == "other" or (kind != dst and mode in ("keep", "tapdance"))):
+        ctx.fail("anypb/wrong-type-accepted", "a %s packed with a non-empty URL of another type was unpacked into %s" % (kind, dst), case)
+    enc = lambda f: "[" + "; ".join(gN(x + 1) for x in f) + "]"   # noqa: E731
+    return 'CAny %s %s %s "%s"%%string %s %s %s "%s"%%string' % (gbool(nilsrc), gN(KINDS[kind][0]), gN(KINDS[dst][0]), any_url(kind, mode),
+                                                             enc(fields), gbool(r["ok2"]), enc(fout), r.get("url") or "")
+
+
+TERMS = {"anypb": post_any, "obf": post_obf, "reveal": post_reveal, "fmt": post_fmt, "name_rt": post_name_rt, "read_name": post_read_name, "trim": post_trim,
          "chunks": post_chunks, "b32": post_b32}
 
 
@@ -446,6 +500,9 @@ def replay_cases(ctx):
             elif fam == "reveal":
                 t = bytes.fromhex(c["data"])
                 out.append(Case("reveal", "transports", {"op": "reveal", "variant": c["variant"], "data": t.hex()}, (c["variant"], t)))
+            elif fam == "anypb":
+                js = {"op": "anypb", "kind": c["kind"], "dstkind": c["dstkind"], "url": c["url"], "fields": c["fields"], "nilsrc": c["nilsrc"]}
+                out.append(Case("anypb", "transports", js, (c["kind"], c["dstkind"], c["url"], tuple(c["fields"]), c["nilsrc"])))
             elif fam == "trim":
                 n, s = unhexl(c["labels"]), unhexl(c["suffix"])
                 out.append(Case("trim", "dns", {"op": "trim", "labels": hexl(n), "suffix": hexl(s)}, (n, s)))
@@ -472,7 +529,7 @@ def run(ctx):
     rc, out = ctx.coq_make(["C15/Examples.vo"])
     if rc != 0:
         ctx.broken("examples", "non-vacuity examples (C15/Examples.v) no longer check: " + out[-500:])
-    cases = replay_cases(ctx) + gen_fmt(ctx) + gen_names(ctx) + gen_req(ctx) + gen_obf(ctx)
+    cases = replay_cases(ctx) + gen_fmt(ctx) + gen_names(ctx) + gen_req(ctx) + gen_obf(ctx) + gen_any(ctx)
     if not run_go(ctx, cases):
         return
     # second stage: what the requester sent is parsed by the dns package and answered by the responder
@@ -535,7 +592,8 @@ def run(ctx):
                        "read_name/ok", "read_name/eof", "read_name/reserved", "read_name/ptrs", "read_name/namelong",
                        "trim/ok", "trim/no", "chunks/63", "b32", "send/ok", "send/err",
                        "obf/xor/ok", "obf/xor/err", "obf/nil/ok", "obf/ctr/ok", "obf/ctr/err", "obf/gcm/ok", "obf/gcm/err",
-                       "reveal/xor/ok", "reveal/xor/err", "reveal/ctr/ok", "reveal/ctr/err", "reveal/gcm/err", "reveal/nil/ok"])
+                       "reveal/xor/ok", "reveal/xor/err", "reveal/ctr/ok", "reveal/ctr/err", "reveal/gcm/err", "reveal/nil/ok",
+                       "anypb/keep/ok", "anypb/empty/ok", "anypb/tapdance/ok", "anypb/other/err", "anypb/cross-keep/err", "anypb/nil/ok"])
     mm = ctx.coq_mismatches("all", HEADER, terms, "chk", shard=max(60, (len(terms) + 11) // 12), need_vo=["C15/Run.vo"])
     if mm:
         ctx.cov["mismatches"] += len(mm)
